@@ -61,6 +61,9 @@ func newEngine(repo, verif string) *Engine {
 }
 
 func (eng *Engine) regHeap(key, sort string) {
+	if os.Getenv("GOVC_TRAP") != "" && strings.Contains(sort, os.Getenv("GOVC_TRAP")) {
+		panic("trap: " + key + " " + sort)
+	}
 	eng.heapMu.Lock()
 	eng.heapSorts[key] = sort
 	eng.heapMu.Unlock()
